@@ -1132,8 +1132,25 @@ def case_kmers(cls, params, rec, bulk=False):
 	if sc is not None:
 		kw["scores"] = torch.tensor(sc, dtype=torch.float64).type(TD[
 			params.get("s_dtype", "float32")]).reshape(B, L)
+	mon = gen.Immutable(X=X, scores=kw.get("scores"))
 	st, val = qcall(kmers, X, k, **kw) if params.get("k_positional", True) \
 		else qcall(kmers, X, k=k, **kw)
+	if mon.changed():
+		# the same score tensor is normally passed again for another k: a
+		# call that rewrites it makes every later result wrong
+		rec.violation(cls, params, {"what": "kmers modified the caller's "
+			"tensors", "tensors": mon.changed(), "k": k,
+			"s_dtype": params.get("s_dtype")}, mech="C18/kmers-input-modified")
+		return
+	if st == "ok" and sc is not None:
+		# call history: the same X / scores objects again
+		st_b, val_b = qcall(kmers, X, k, **kw)
+		if st_b != "ok" or not torch.equal(val_b, val):
+			rec.violation(cls, params, {"what": "the same kmers call on the "
+				"same tensors gives another result the second time", "k": k,
+				"s_dtype": params.get("s_dtype")},
+				mech="C18/kmers-call-history-dependence")
+			return
 	rec.count("kmers_calls")
 	rec.count("kmers_sequences", B)
 	rec.setadd("kmers_k", k)
